@@ -60,6 +60,7 @@ func c16Menu(w *mintops.W) []string {
 		ops = append(ops, "rotate|100")
 	}
 	ops = append(ops, "info")
+	ops = append(ops, "restart") // what is enforced must not depend on state that only lives in memory
 	return ops
 }
 
